@@ -161,8 +161,26 @@ func (c *concretizer) conc(st *State, v Value, T types.Type, depth int) string {
 		c.giveUp("scalar of type %s cannot be constructed", c.typeStr(T))
 		return "nil"
 	case *PtrV:
-		for _, al := range x.Alts {
-			if !c.askBool(al.Cond, len(x.Alts) == 1) {
+		// when the model does not say whether the pointer is nil (its symbol
+		// does not occur in the query), a non-nil value is the safer choice:
+		// preconditions typically ask for it
+		chosen := -1
+		for i, al := range x.Alts {
+			if v, ok := c.ask(al.Cond); ok && v == "true" {
+				chosen = i
+				break
+			}
+		}
+		if chosen < 0 {
+			for i, al := range x.Alts {
+				if _, ok := c.ask(al.Cond); !ok && al.Loc != nil {
+					chosen = i
+					break
+				}
+			}
+		}
+		for i, al := range x.Alts {
+			if i != chosen {
 				continue
 			}
 			if al.Loc == nil {
